@@ -27,6 +27,32 @@ def num(v, sty="d"):
     return str(v)
 
 
+PREC = {"+": 1, "-": 1, "*": 2, "/": 2, "%": 2}
+
+
+def expr_min(e, redundant=False, sp=""):
+    """Render a tree with the parentheses the usual rules require (and, optionally, redundant ones)."""
+    o = e["o"]
+    if o == "n":
+        return num(e["v"], e.get("sty", "d"))
+    if o == "id":
+        return e["nm"]
+    if o == "$":
+        return "$"
+    if o == "par":
+        return "(" + expr_min(e["a"], redundant, sp) + ")"
+    if o == "neg":
+        return "-" + expr_min(e["a"], redundant, sp)
+
+    def side(ch, right):
+        t = expr_min(ch, redundant, sp)
+        if ch["o"] in PREC:
+            if PREC[ch["o"]] < PREC[o] or (right and PREC[ch["o"]] == PREC[o]) or redundant:
+                return "(" + t + ")"
+        return t
+    return side(e["a"], False) + sp + o + sp + side(e["b"], True)
+
+
 def expr(e):
     o = e["o"]
     if o == "n":
@@ -64,6 +90,8 @@ def mem(o):
     lab = o.get("lab", "")
     if lab:
         s = (s + plus if s else "") + lab
+    if "dx" in o:
+        return SIZEKW[o.get("w", 0)] + "[" + LAY["brk"] + (s + plus if s else "") + (o.get("dxtext") or expr(o["dx"])) + LAY["brk"] + "]"
     d = o.get("d", 0)
     hd = o.get("hd", 1 if (d != 0 or not s) else 0)
     if hd:
@@ -86,6 +114,8 @@ def operand(o):
         return "CR%d" % o["n"]
     if t == "i":
         return num(o["v"], o.get("sty", "d"))
+    if t == "e":
+        return o.get("text") or expr(o["e"])
     if t == "l":
         a = o.get("add", 0)
         return o["nm"] + (("+%d" % a) if a > 0 else ("%d" % a) if a < 0 else "")
@@ -107,7 +137,7 @@ def stmt(s):
     if k == "label":
         return s["nm"] + ":"
     if k == "equ":
-        return s["nm"] + LAY["sep"] + "EQU" + LAY["sep"] + expr(s["e"])
+        return s["nm"] + LAY["sep"] + "EQU" + LAY["sep"] + (s.get("text") or expr(s["e"]))
     if k == "org":
         return LAY["ind"] + "ORG" + LAY["sep"] + num(s["v"], s.get("sty", "h"))
     if k == "bits":
@@ -123,10 +153,10 @@ def stmt(s):
     if k == "data":
         items = []
         for it in s["items"]:
-            items.append(string_lit(it["b"]) if it["t"] == "s" else expr(it["e"]))
+            items.append(string_lit(it["b"]) if it["t"] == "s" else (it.get("text") or expr(it["e"])))
         return LAY["ind"] + s["mn"] + LAY["sep"] + LAY["comma"].join(items)
     if k == "resb":
-        return LAY["ind"] + "RESB" + LAY["sep"] + expr(s["e"])
+        return LAY["ind"] + "RESB" + LAY["sep"] + (s.get("text") or expr(s["e"]))
     if k == "alignb":
         return LAY["ind"] + "ALIGNB" + LAY["sep"] + "%d" % s["v"]
     if k == "ins":
@@ -192,6 +222,11 @@ def norm_operand(o):
         o.setdefault("add", 0)
     if t == "i":
         o.setdefault("sty", "d")
+    if t == "e":
+        o = {"t": "e", "e": norm_expr(o["e"])}
+    if t == "m" and "dx" in o:
+        o["dx"] = norm_expr(o["dx"])
+        o.pop("dxtext", None)
     for junk in ("hd", "showsc") + (("sty",) if t != "i" else ()):
         o.pop(junk, None)
     return o
@@ -208,6 +243,7 @@ def norm_expr(e):
 def norm_stmt(s):
     s = dict(s)
     s.pop("sty", None)
+    s.pop("text", None)
     k = s["k"]
     if k == "ins":
         s["ops"] = [norm_operand(o) for o in s["ops"]]
